@@ -10,6 +10,7 @@ import (
 	"encoding/hex"
 	"encoding/json"
 	"fmt"
+	upgradetypes "github.com/KiraCore/sekai/x/upgrade/types"
 	"sort"
 	"strings"
 	"time"
@@ -17,12 +18,12 @@ import (
 	simapp "github.com/KiraCore/sekai/app"
 	govkeeper "github.com/KiraCore/sekai/x/gov/keeper"
 	govtypes "github.com/KiraCore/sekai/x/gov/types"
-	sdk "github.com/cosmos/cosmos-sdk/types"
 	dbm "github.com/cometbft/cometbft-db"
 	abci "github.com/cometbft/cometbft/abci/types"
 	"github.com/cometbft/cometbft/libs/log"
 	bam "github.com/cosmos/cosmos-sdk/baseapp"
 	simtestutil "github.com/cosmos/cosmos-sdk/testutil/sims"
+	sdk "github.com/cosmos/cosmos-sdk/types"
 )
 
 func init() { props["C12"] = runC12 }
@@ -186,7 +187,23 @@ func runC12(r *Rec) {
 			hist = richGenerate(r, o)
 			label = fmt.Sprintf("rich-state-%d(custody-level=%d,tail=%v)", st, o.Custody, o.Tail)
 		}
+		// dense states: every third rich history is exported and re-imported after EVERY block from the 7th on (states
+		// that exist for one block only - a plan between its two processing passes, an item on the block of its deadline)
+		if st >= nOld && (st-nOld)%3 == 1 {
+			lbl := label
+			c01AfterBlock = func(bi int, w *World) {
+				if bi < 6 || bi == len(hist)-1 {
+					return
+				}
+				if c12Probe(func() { w.app.CustomGovKeeper.AllDataRegistry(w.ReadCtx()) }) != nil {
+					return // the exporter would panic in a goroutine (recorded finding, reported below for the final state)
+				}
+				r.Count("dense-export")
+				c12RoundTrip(r, w, fmt.Sprintf("%s@block%d", lbl, bi+1))
+			}
+		}
 		obs, w := c01Run(hist, nAcc, nVal, 0)
+		c01AfterBlock = nil
 		if n := len(obs); n > 0 && obs[n-1].panicAt != "" {
 			// block processing panicked while populating (C06's subject): no consistent state to export
 			r.Count("populate:panicked")
@@ -233,83 +250,7 @@ func runC12(r *Rec) {
 			r.Count("populate:panicked")
 			continue
 		}
-		exp, err := w.app.ExportAppStateAndValidators(false, nil)
-		if err != nil {
-			r.Fail("C12/export/error", label+": "+err.Error(), nil)
-			continue
-		}
-		w2, p := c12Import(exp.AppState, w.now, w.height)
-		r.Case(label, true)
-		if p != nil {
-			r.Fail("C12/import/panic", fmt.Sprintf("%s: InitChain from the application's own export panicked: %.300v", label, p), nil)
-			continue
-		}
-		c12Coverage(r, label, w, w2)
-		// ---- store-by-store comparison
-		ca := w.ReadCtx()
-		cb := w2.app.NewContext(false, w.hdr)
-		classes := map[string][]string{}
-		for _, name := range c01Stores {
-			ka, kb := w.app.GetKey(name), w2.app.GetKey(name)
-			if ka == nil || kb == nil {
-				r.Fail("C12/harness/unknown-store", name, nil)
-				continue
-			}
-			ma, mb := dumpStore(ca, ka), dumpStore(cb, kb)
-			keys := map[string]bool{}
-			for k := range ma {
-				keys[k] = true
-			}
-			for k := range mb {
-				keys[k] = true
-			}
-			var ks []string
-			for k := range keys {
-				ks = append(ks, k)
-			}
-			sort.Strings(ks)
-			for _, k := range ks {
-				va, oka := ma[k]
-				vb, okb := mb[k]
-				kind := ""
-				switch {
-				case oka && !okb:
-					kind = "lost"
-				case !oka && okb:
-					kind = "invented"
-				case !bytes.Equal(va, vb):
-					kind = "changed"
-				default:
-					continue
-				}
-				cl := c12KeyClass(name, []byte(k)) + ":" + kind
-				if len(classes[cl]) < 2 {
-					classes[cl] = append(classes[cl], hex.EncodeToString([]byte(k)))
-				}
-			}
-		}
-		var cls []string
-		for c := range classes {
-			cls = append(cls, c)
-		}
-		sort.Strings(cls)
-		for _, c := range cls {
-			r.Count("diff:" + c)
-			key := "C12/store-diff/" + c
-			what := fmt.Sprintf("%s: after export + re-import the store differs: %s (e.g. key %s)", label, c, classes[c][0])
-			if c12Expected[c] != "" {
-				r.Known("C12/store-diff/"+c12Expected[c], what)
-			} else {
-				r.Fail(key, what, nil)
-			}
-		}
-		// ---- second export equals the first, modulo the fields of the differing record kinds above
-		if len(cls) == 0 {
-			exp2, err2 := w2.app.ExportAppStateAndValidators(false, nil)
-			if err2 == nil && !bytes.Equal(exp.AppState, exp2.AppState) {
-				r.Fail("C12/second-export-differs", label, nil)
-			}
-		}
+		c12RoundTrip(r, w, label)
 	}
 	// ---- witness of Sekai.Props.C12.perm_roundtrip_counterexample on the real code: a role blacklist is lost by the import
 	{
@@ -337,54 +278,220 @@ func runC12(r *Rec) {
 			}
 		}
 	}
+	c12UpgradeWindow(r)
 	r.Mark("c12 done")
 	r.Extra["rule"] = "states populated by real block histories (bank, identity, polls, proposals with votes in different phases, staking pools and delegations, custody records in every second state), exported with ExportAppStateAndValidators and imported into a fresh application by InitChain; raw key/value comparison of every module store, differences grouped by record kind (store + key prefix + lost/invented/changed)"
 }
 
+// c12RoundTrip: export the state of w with the application's own exporter, initialise a fresh application from it and
+// compare every module store key by key; differences are grouped by record kind.
+func c12RoundTrip(r *Rec, w *World, label string) {
+	exp, err := w.app.ExportAppStateAndValidators(false, nil)
+	if err != nil {
+		r.Fail("C12/export/error", label+": "+err.Error(), nil)
+		return
+	}
+	w2, p := c12Import(exp.AppState, w.t0, w.height) // InitChain carries the genesis time of the genesis file, which `sekaid export` keeps
+	r.Case(label, true)
+	if p != nil {
+		r.Fail("C12/import/panic", fmt.Sprintf("%s: InitChain from the application's own export panicked: %.300v", label, p), nil)
+		return
+	}
+	c12Coverage(r, label, w, w2)
+	// ---- store-by-store comparison
+	ca := w.ReadCtx()
+	cb := w2.app.NewContext(false, w.hdr)
+	classes := map[string][]string{}
+	for _, name := range c01Stores {
+		ka, kb := w.app.GetKey(name), w2.app.GetKey(name)
+		if ka == nil || kb == nil {
+			r.Fail("C12/harness/unknown-store", name, nil)
+			continue
+		}
+		ma, mb := dumpStore(ca, ka), dumpStore(cb, kb)
+		keys := map[string]bool{}
+		for k := range ma {
+			keys[k] = true
+		}
+		for k := range mb {
+			keys[k] = true
+		}
+		var ks []string
+		for k := range keys {
+			ks = append(ks, k)
+		}
+		sort.Strings(ks)
+		for _, k := range ks {
+			va, oka := ma[k]
+			vb, okb := mb[k]
+			kind := ""
+			switch {
+			case oka && !okb:
+				kind = "lost"
+			case !oka && okb:
+				kind = "invented"
+			case !bytes.Equal(va, vb):
+				kind = "changed"
+			default:
+				continue
+			}
+			cl := c12KeyClass(name, []byte(k)) + ":" + kind
+			if len(classes[cl]) < 2 {
+				classes[cl] = append(classes[cl], hex.EncodeToString([]byte(k)))
+			}
+		}
+	}
+	var cls []string
+	for c := range classes {
+		cls = append(cls, c)
+	}
+	sort.Strings(cls)
+	for _, c := range cls {
+		r.Count("diff:" + c)
+		key := "C12/store-diff/" + c
+		what := fmt.Sprintf("%s: after export + re-import the store differs: %s (e.g. key %s)", label, c, classes[c][0])
+		if c12Expected[c] != "" {
+			r.Known("C12/store-diff/"+c12Expected[c], what)
+		} else {
+			r.Fail(key, what, nil)
+		}
+	}
+	// ---- second export equals the first, modulo the fields of the differing record kinds above
+	if len(cls) == 0 {
+		// the exporter reads the committed state: commit the imported genesis first
+		w2.app.Commit()
+		r.Count("second-export")
+		exp2, err2 := w2.app.ExportAppStateAndValidators(false, nil)
+		if err2 == nil && !bytes.Equal(exp.AppState, exp2.AppState) {
+			r.Fail("C12/second-export-differs", label+": "+c12JSONDiff(exp.AppState, exp2.AppState), nil)
+		}
+	}
+}
+
 // record kinds that are known not to survive export/import on the unchanged tree (each is a recorded finding key)
 var c12Expected = map[string]string{
-	"basket/basket_by_:lost": "basket/basket_by_:lost",
+	"basket/basket_by_:lost":                  "basket/basket_by_:lost",
 	"custody/custody_custodians_prefix_:lost": "custody/custody_custodians_prefix_:lost",
-	"custody/custody_record_prefix_:lost": "custody/custody_record_prefix_:lost",
+	"custody/custody_record_prefix_:lost":     "custody/custody_record_prefix_:lost",
 	"custody/custody_white_list_prefix_:lost": "custody/custody_white_list_prefix_:lost",
-	"custody/custody_limits_prefix_:lost": "custody/custody_limits_prefix_:lost",
-	"custody/custody_pool_prefix_:lost": "custody/custody_pool_prefix_:lost",
-	"customgov/0x03:lost": "customgov/0x03:lost",
-	"customgov/0x04:lost": "customgov/0x04:lost",
-	"customgov/0x05:lost": "customgov/0x05:lost",
-	"customgov/0x06:lost": "customgov/0x06:lost",
-	"customgov/0x07:lost": "customgov/0x07:lost",
-	"customgov/0x08:lost": "customgov/0x08:lost",
-	"multistaking/0x03:lost": "multistaking/0x03:lost",
-	"multistaking/0x05:lost": "multistaking/0x05:lost",
+	"custody/custody_limits_prefix_:lost":     "custody/custody_limits_prefix_:lost",
+	"custody/custody_pool_prefix_:lost":       "custody/custody_pool_prefix_:lost",
+	"customgov/0x03:lost":                     "customgov/0x03:lost",
+	"customgov/0x04:lost":                     "customgov/0x04:lost",
+	"customgov/0x05:lost":                     "customgov/0x05:lost",
+	"customgov/0x06:lost":                     "customgov/0x06:lost",
+	"customgov/0x07:lost":                     "customgov/0x07:lost",
+	"customgov/0x08:lost":                     "customgov/0x08:lost",
+	"multistaking/0x03:lost":                  "multistaking/0x03:lost",
+	"multistaking/0x05:lost":                  "multistaking/0x05:lost",
 	// ---- record kinds first reached by the rich histories (richGenerate)
-	"collectives/collective_by_:lost": "collectives/collective_by_:lost",
-	"collectives/collective_:lost": "collectives/collective_:lost",
-	"custody/custody_approve_:lost": "custody/custody_approve_:lost",
+	"collectives/collective_by_:lost":            "collectives/collective_by_:lost",
+	"collectives/collective_:lost":               "collectives/collective_:lost",
+	"custody/custody_approve_:lost":              "custody/custody_approve_:lost",
 	"custody/custody_limits_status_prefix_:lost": "custody/custody_limits_status_prefix_:lost",
-	"customgov/0x10:changed": "customgov/0x10:changed",
-	"customgov/0x20:lost": "customgov/0x20:lost",
-	"customgov/0x31:invented": "customgov/0x31:invented",
-	"customgov/0x32:invented": "customgov/0x32:invented",
+	"customgov/0x10:changed":                     "customgov/0x10:changed",
+	"customgov/0x20:lost":                        "customgov/0x20:lost",
+	"customgov/0x31:invented":                    "customgov/0x31:invented",
+	"customgov/0x32:invented":                    "customgov/0x32:invented",
 	"customgov/identity_record_by_address_:lost": "customgov/identity_record_by_address_:lost",
-	"customslashing/0x04:lost": "customslashing/0x04:lost",
-	"customstaking/0x06:lost": "customstaking/0x06:lost",
-	"feeprocessing/fee_payment_:lost": "feeprocessing/fee_payment_:lost",
-	"feeprocessing/execution_:lost": "feeprocessing/execution_:lost",
-	"layer2/dapp_:lost": "layer2/dapp_:lost",
-	"layer2/dapp_user_:lost": "layer2/dapp_user_:lost",
-	"layer2/dapp_operator_:lost": "layer2/dapp_operator_:lost",
-	"layer2/dapp_operator_candidate_:lost": "layer2/dapp_operator_candidate_:lost",
-	"layer2/dapp_session_:lost": "layer2/dapp_session_:lost",
-	"layer2/dapp_session_approval_:lost": "layer2/dapp_session_approval_:lost",
-	"layer2/dapp_leader_denouncement_:lost": "layer2/dapp_leader_denouncement_:lost",
-	"layer2/bridge_registrar_:lost": "layer2/bridge_registrar_:lost",
-	"layer2/bridge_account_:lost": "layer2/bridge_account_:lost",
-	"layer2/bridge_token_:lost": "layer2/bridge_token_:lost",
-	"layer2/xam_key:lost": "layer2/xam_key:lost",
-	"multistaking/0x04:lost": "multistaking/0x04:lost",
-	"multistaking/0x07:lost": "multistaking/0x07:lost",
-	"recovery/0x01:lost": "recovery/0x01:lost",
-	"recovery/0x03:changed": "recovery/0x03:changed",
-	"recovery/0x07:lost": "recovery/0x07:lost",
+	"customslashing/0x04:lost":                   "customslashing/0x04:lost",
+	"customstaking/0x06:lost":                    "customstaking/0x06:lost",
+	"feeprocessing/fee_payment_:lost":            "feeprocessing/fee_payment_:lost",
+	"feeprocessing/execution_:lost":              "feeprocessing/execution_:lost",
+	"layer2/dapp_:lost":                          "layer2/dapp_:lost",
+	"layer2/dapp_user_:lost":                     "layer2/dapp_user_:lost",
+	"layer2/dapp_operator_:lost":                 "layer2/dapp_operator_:lost",
+	"layer2/dapp_operator_candidate_:lost":       "layer2/dapp_operator_candidate_:lost",
+	"layer2/dapp_session_:lost":                  "layer2/dapp_session_:lost",
+	"layer2/dapp_session_approval_:lost":         "layer2/dapp_session_approval_:lost",
+	"layer2/dapp_leader_denouncement_:lost":      "layer2/dapp_leader_denouncement_:lost",
+	"layer2/bridge_registrar_:lost":              "layer2/bridge_registrar_:lost",
+	"layer2/bridge_account_:lost":                "layer2/bridge_account_:lost",
+	"layer2/bridge_token_:lost":                  "layer2/bridge_token_:lost",
+	"layer2/xam_key:lost":                        "layer2/xam_key:lost",
+	"multistaking/0x04:lost":                     "multistaking/0x04:lost",
+	"multistaking/0x07:lost":                     "multistaking/0x07:lost",
+	"recovery/0x01:lost":                         "recovery/0x01:lost",
+	"recovery/0x03:changed":                      "recovery/0x03:changed",
+	"recovery/0x07:lost":                         "recovery/0x07:lost",
+}
+
+// c12UpgradeWindow: a software-upgrade plan scheduled by a passed proposal, exported and re-imported at every height
+// from its scheduling until it has become the current plan - including the single block between the two passes of the
+// upgrade BeginBlocker (validators that did not approve are paused and the plan is marked processed; one block later it
+// becomes the current plan).
+func c12UpgradeWindow(r *Rec) {
+	r.Mark("upgrade plan window")
+	w := NewWorld(WorldOpts{NAcc: 6, NVal: 3, SudoAccs: []int{5}})
+	ms := govkeeper.NewMsgServerImpl(w.app.CustomGovKeeper)
+	upAt := w.now.Unix() + 900
+	var pid uint64
+	br := w.Block(nil, BlockOpts{Dt: 6 * time.Second, Mid: func(ctx sdk.Context) {
+		content := upgradetypes.NewSoftwareUpgradeProposal("upg", []upgradetypes.Resource{{Id: "kira", Url: "u", Version: "v", Checksum: "c"}}, upAt, chainID, "verif-2", "memo", 600, "up", true, false, true)
+		m, err := govtypes.NewMsgSubmitProposal(w.addrs[5], "t", "d", content)
+		if err != nil {
+			return
+		}
+		withCache(ctx, func(cc sdk.Context) error {
+			res, e := ms.SubmitProposal(sdk.WrapSDKContext(cc), m)
+			if e == nil {
+				pid = res.ProposalID
+				_, e = ms.VoteProposal(sdk.WrapSDKContext(cc), govtypes.NewMsgVoteProposal(pid, w.addrs[5], govtypes.OptionYes, sdk.ZeroDec()))
+			}
+			return e
+		})
+	}})
+	if br.Panicked != nil || pid == 0 {
+		r.Count("upgrade-window:setup-failed")
+		return
+	}
+	w.ApplyUpdates(br.Updates)
+	seenPending, seenProcessed, seenCurrent := false, false, false
+	for i := 0; i < 40 && !seenCurrent; i++ {
+		br := w.Block(nil, BlockOpts{Dt: 60 * time.Second})
+		if br.Panicked != nil {
+			r.Count("upgrade-window:panicked")
+			return
+		}
+		w.ApplyUpdates(br.Updates)
+		ctx := w.ReadCtx()
+		next, _ := w.app.UpgradeKeeper.GetNextPlan(ctx)
+		cur, _ := w.app.UpgradeKeeper.GetCurrentPlan(ctx)
+		phase := ""
+		switch {
+		case next != nil && next.ProcessedNoVoteValidators:
+			phase, seenProcessed = "between-the-two-passes", true
+		case next != nil && !seenPending:
+			phase, seenPending = "pending", true
+		case next == nil && cur != nil && cur.Name == "upg":
+			phase, seenCurrent = "current", true
+		}
+		if phase == "" {
+			continue
+		}
+		r.Count("upgrade-window:" + phase)
+		c12RoundTrip(r, w, fmt.Sprintf("upgrade-plan(%s)@block%d", phase, w.height))
+	}
+	if !seenProcessed {
+		r.Count("upgrade-window:window-not-reached")
+	}
+}
+
+// c12JSONDiff names the first few top-level modules whose exported genesis differs
+func c12JSONDiff(a, b []byte) string {
+	var ma, mb map[string]json.RawMessage
+	if json.Unmarshal(a, &ma) != nil || json.Unmarshal(b, &mb) != nil {
+		return "(not JSON objects)"
+	}
+	var out []string
+	for k, va := range ma {
+		if !bytes.Equal(va, mb[k]) {
+			out = append(out, fmt.Sprintf("%s: %.200s vs %.200s", k, va, mb[k]))
+		}
+	}
+	sort.Strings(out)
+	if len(out) > 3 {
+		out = out[:3]
+	}
+	return strings.Join(out, " | ")
 }
